@@ -85,6 +85,18 @@ func main() {
 	shardS := flag.String("shard", "", "internal: i/n - explore only every n-th subtree and print a JSON report")
 	procs := flag.Int("procs", 0, "number of shard processes (default: number of CPUs)")
 	flag.CommandLine.Parse(reorder(os.Args[1:]))
+	if *sub != "" || *shardS != "" {
+		// worker process: never outlive the parent (a killed or timed-out parent must not leave workers behind)
+		pp := os.Getppid()
+		go func() {
+			for {
+				time.Sleep(2 * time.Second)
+				if os.Getppid() != pp {
+					os.Exit(3)
+				}
+			}
+		}()
+	}
 	if *sub != "" {
 		f, ok := props.SubModes[*sub]
 		if !ok {
@@ -133,7 +145,7 @@ func main() {
 	if os.Getenv("VERIF_DEADLINE") == "" {
 		props.SetSubDeadline(deadline)
 	}
-	total := &engine.Report{Exhaustive: true}
+	total := &engine.Report{Exhaustive: true, Shallow: true}
 	engine.HangHook = func(sc *engine.Scenario, cfg drv.Config, prelude, hist []model.Op) {
 		total.Exhaustive = false
 		total.PerConfig = append(total.PerConfig, fmt.Sprintf("HANG in %s: %v", sc.Name, hist))
@@ -163,15 +175,34 @@ func main() {
 		}
 		spStates, spNT := total.States, total.NonTrivial
 		states, nts := map[uint64]struct{}{}, map[uint64]struct{}{}
-		for _, sc := range chk.Scenarios {
-			rep := engine.Explore(sc, engine.Options{Deadline: deadline, Workers: 1, Shard: shard, NShard: nshard,
-				Signature: func(f *engine.Found) string { return signature(id, f) }})
-			merge(total, rep)
-			for k := range rep.StateSet {
-				states[hashMix(k, sc.Name)] = struct{}{}
-			}
-			for k := range rep.NTSet {
-				nts[hashMix(k, sc.Name)] = struct{}{}
+		// iterate the bound: first every scenario with the depth bound reduced by one (about a tenth of the
+		// work), then with the full bound; if the wall-clock budget runs out during the second pass, every
+		// scenario has still been covered completely up to depth-1
+		for pass := 0; pass < 2; pass++ {
+			for _, sc := range chk.Scenarios {
+				full := sc.Depth
+				if pass == 0 {
+					if full < 2 {
+						continue
+					}
+					sc.Depth = full - 1
+				}
+				rep := engine.Explore(sc, engine.Options{Deadline: deadline, Workers: 1, Shard: shard, NShard: nshard,
+					Signature: func(f *engine.Found) string { return signature(id, f) }})
+				sc.Depth = full
+				if pass == 0 {
+					// the shallow pass decides Shallow, the full pass Exhaustive
+					rep.Shallow = rep.Exhaustive
+					rep.Exhaustive = true
+					rep.PerConfig = nil
+				}
+				merge(total, rep)
+				for k := range rep.StateSet {
+					states[hashMix(k, sc.Name)] = struct{}{}
+				}
+				for k := range rep.NTSet {
+					nts[hashMix(k, sc.Name)] = struct{}{}
+				}
 			}
 		}
 		if specialErr != nil {
@@ -423,6 +454,7 @@ func merge(t, r *engine.Report) {
 	t.Panics += r.Panics
 	t.FoundTotal += r.FoundTotal
 	t.Exhaustive = t.Exhaustive && r.Exhaustive
+	t.Shallow = t.Shallow && r.Shallow
 	t.Found = append(t.Found, r.Found...)
 	t.PerConfig = append(t.PerConfig, r.PerConfig...)
 	for _, s := range r.Samples {
@@ -536,6 +568,9 @@ type evidence struct {
 
 func writeEvidence(id, tier string, seed int, chk *props.Check, rep *engine.Report, t0 time.Time, replays []string, known int) {
 	dir := filepath.Join(root, "evidence")
+	if d := os.Getenv("VERIF_EVIDENCE_DIR"); d != "" {
+		dir = d // mutation runs (tools/mutov.sh) must not overwrite the evidence of the real tree
+	}
 	os.MkdirAll(dir, 0o755)
 	samples := []any{}
 	for _, s := range rep.Samples {
@@ -561,6 +596,7 @@ func writeEvidence(id, tier string, seed int, chk *props.Check, rep *engine.Repo
 		"rule":                          chk.Rule,
 		"samples":                       samples,
 		"exhaustive":                    rep.Exhaustive,
+		"exhaustive_at_depth_minus_1":   rep.Shallow,
 		"max_depth":                     rep.MaxDepth,
 		"per_config":                    rep.PerConfig,
 		"queries_evaluated":             rep.Queries,
